@@ -47,6 +47,7 @@ type Step struct {
 	Fb   int        `json:"fb"`
 	Ls   int64      `json:"ls"`
 	Lvl  int        `json:"lvl"`
+	Ld   int        `json:"ld"` // Load: 0 = the set's slot dimensions, 1 = the maximum
 	Keys string     `json:"keys,omitempty"`
 }
 
@@ -56,6 +57,7 @@ type RegView struct {
 	Ls   int64      `json:"ls"`
 	Lvl  int        `json:"lvl"`
 	Deg  int        `json:"deg"`
+	Ld   int        `json:"ld"` // 0: the set's slot dimensions, 1: the maximum (when different), 2: anything else
 	Cons bool       `json:"cons"`
 }
 
@@ -230,8 +232,13 @@ func (m *Machine) view(ct *rlwe.Ciphertext, ok bool) *RegView {
 	rv.Ls = log2fix(&sc)
 	pt := m.dec.DecryptNew(ct)
 	n := 1 << uint(pt.LogDimensions.Cols+pt.LogDimensions.Rows)
-	if n != m.n {
-		rv.Cons = false // the slot count recorded on the ciphertext is not the one of the inputs
+	switch {
+	case pt.LogDimensions == m.logDims():
+		rv.Ld = 0
+	case pt.LogDimensions == m.p.LogMaxDimensions():
+		rv.Ld = 1
+	default:
+		rv.Ld, rv.Cons = 2, false // a slot count that none of the inputs had
 		return rv
 	}
 	vals := make([]complex128, n)
@@ -460,7 +467,10 @@ func (m *Machine) Exec(st Step) (ev Event) {
 	case "Load":
 		pt := ckks.NewPlaintext(m.p, st.Lvl)
 		pt.LogDimensions = m.logDims()
-		tr.Must(m.ecd.Encode(m.expand(st.V, st.Fb, m.n), pt))
+		if st.Ld == 1 {
+			pt.LogDimensions = m.p.LogMaxDimensions()
+		}
+		tr.Must(m.ecd.Encode(m.expand(st.V, st.Fb, 1<<uint(pt.LogDimensions.Cols+pt.LogDimensions.Rows)), pt))
 		ct, err := m.enc.EncryptNew(pt)
 		tr.Must(err)
 		m.regs[st.O], m.ok[st.O] = ct, true
